@@ -22,7 +22,7 @@ RULE = ('seeded plans: RDM stack (1-6 RDMs, 3-9 conditions, identity-encoded val
         'bootstrap_sample/_rdm/_pattern, subsample, subsample_pattern incl. resample-of-resample; draws served '
         'by the RNG seam with draw faults; plus directed enumeration of all 27 draw vectors on 3 groups. '
         'A run is non-trivial if at least one draw was served or one explicit resample was checked; distinct = '
-        'distinct (op, grouping kinds, draw-fault kind, #unique-drawn class) signatures.')
+        'distinct (op, grouping kinds, draw-fault kind, #unique-drawn class) signatures, counted per call (a run makes 1-8 calls, so the count can exceed the number of runs).')
 ASSUMPTIONS = ['numpy global RNG is the only entropy source of rsatoolbox.inference.bootstrap (seam); '
                'the RNG itself is a stub, so bias of the generator is out of scope',
                'reference model sim/twins/rdms_ref.py is correct']
